@@ -99,6 +99,9 @@ class Exec:
             else:
                 v = s1.read(o, e.attr)
                 s1.assume_alloc(v, s1.farr(o.ty[1], e.attr)[1])
+                rh = self.specs.get(("hook", "read", field_owner(cls, e.attr), e.attr))
+                if rh is not None:
+                    rh(self, s1, o, v)
                 out.append((s1, v))
         return out
 
